@@ -319,6 +319,26 @@ pub fn exec(rest: &str, out: &mut Out) -> (String, bool) {
             }
         }
     }
+    // `canonicalize` and `sort` re-order the entries in place: afterwards every key is found at the
+    // positions a linear scan of the NEW entry list gives (whatever order the entries were in before)
+    for which in 0..3 {
+        let mut c = o.clone();
+        if which == 0 { c.canonicalize(); } else if which == 1 { c.sort(); } else { c.sort(); c.canonicalize(); }
+        let ents: Vec<(String, Value)> = c.entries().iter().map(|e| (e.key.to_string(), e.value.clone())).collect();
+        let mut bad = String::new();
+        for k in keys.iter() {
+            let want = positions(&ents, k);
+            if c.indexes_of(k.as_str()).collect::<Vec<_>>() != want || c.contains_key(k.as_str()) != !want.is_empty() || c.get(k.as_str()).count() != want.len() { bad = format!("key {:?}", k.chars().take(12).collect::<String>()); break; }
+        }
+        if bad.is_empty() {
+            if let Some(k) = keys.first() {
+                let before = positions(&ents, k).len();
+                let replaced = { let old = c.insert(k.as_str().into(), Value::Boolean(true)); let some = old.is_some(); drop(old); some };
+                if replaced != (before > 0) || c.indexes_of(k.as_str()).count() != 1 { bad = "insert after the re-ordering".into(); }
+            }
+        }
+        out.oracle(bad.is_empty() && ents.len() == spec.len(), match which { 0 => "after canonicalize every key is found where a scan of the entries finds it, and insert replaces", 1 => "after sort every key is found where a scan of the entries finds it, and insert replaces", _ => "after sort then canonicalize every key is found where a scan of the entries finds it, and insert replaces" }, || bad.clone());
+    }
     // the object (and its index) is a value: moved to another thread it answers every key query as
     // here, and a further mutation there behaves like on the list (an index tied to per-thread or
     // per-process state would not)
@@ -412,6 +432,13 @@ pub fn gen(out: &mut Out, thorough: bool, focus: &str) {
     }
     out.count_n("seeded_prefix_histories", lines.len() as u64);
     for s in lines.drain(..) { l(s, out); }
+    // keys on both sides of the UTF-16 / code point divergence (U+E000..U+FFFF against supplementary
+    // planes), pushed in code point order, in UTF-16 order and interleaved, with duplicates: queries,
+    // then the re-ordering oracles above
+    for hist in ["push:ffff:n push:10000:t push:61:f", "push:61:n push:ffff:t push:10000:f push:ffff:n", "push:10000:n push:e000.61:t push:10000.62:f push:ff21.ff22:n",
+                 "push:1f600:n push:ff77.ff70:t", "push:61:n push:ffff:t push:10000:f", "push:31:n push:ff21:t push:1f600:f push:1f601:n", "push:e000:n push:10000:t", "new:31=n,ff21=t,1f600=f,ff21=n pushf:e000:t", "push:10ffff:n push:ffff:t push:10ffff:f rm:ffff:9 push:fb01:n push:1d11e:t"] {
+        l(format!("obj qb {}", hist), out);
+    }
     // SCALE: keys as long as 2^8, 2^12, 2^16 bytes (hash of a truncated / capped key, inline buffers,
     // length counters), many occurrences of one key, many distinct keys — with every query after every
     // operation (flag q) for the long keys
